@@ -40,33 +40,21 @@ theorem bytesHex_hexBytes : ∀ (n : Nat) (s : Str), s.length = 2 * n → s.all 
     | [], hl, _ => simp at hl
     | [_], hl, _ => simp at hl; omega
 
-/-- the one shape on which the regex and `bson.ObjectId` disagree: 24 lower-case hex digits and a newline -/
-def OidNewline (s : Str) : Prop := s.length = 25 ∧ (s.take 24).all isLowerHex = true ∧ s.drop 24 = [10]
-
-theorem idToDb_roundtrip (s : Str) (h : ¬ OidNewline s) : ∃ d, idToDb s = some d ∧ idFromDb d = s := by
+theorem idToDb_roundtrip (s : Str) : ∃ d, idToDb Fix.repaired s = some d ∧ idFromDb d = s := by
   unfold idToDb
-  by_cases ho : isOidText s = true
+  by_cases ho : isOidText Fix.repaired s = true
   · rw [if_pos ho]
-    simp only [isOidText, Bool.or_eq_true, Bool.and_eq_true, beq_iff_eq] at ho
-    rcases ho with ho | ho
-    · obtain ⟨b, hb, hbs, _⟩ := bytesHex_hexBytes 12 s (by omega) ho.2
-      exact ⟨.oid b, by simp [ho.1, hb], hbs⟩
-    · exact absurd ⟨ho.1.1, ho.1.2, ho.2⟩ h
+    simp only [isOidText, Fix.repaired, Bool.not_true, Bool.false_and, Bool.or_false, Bool.and_eq_true, beq_iff_eq] at ho
+    obtain ⟨b, hb, hbs, _⟩ := bytesHex_hexBytes 12 s (by omega) ho.2
+    exact ⟨.oid b, by simp [ho.1, hb], hbs⟩
   · rw [if_neg ho]; exact ⟨.str s, rfl, rfl⟩
 
-theorem idToDb_injective (s t : Str) (d : DbId) (hs : idToDb s = some d) (ht : idToDb t = some d) : s = t := by
-  have key : ∀ u e, idToDb u = some e → idFromDb e = u := by
+theorem idToDb_injective (s t : Str) (d : DbId) (hs : idToDb Fix.repaired s = some d) (ht : idToDb Fix.repaired t = some d) :
+    s = t := by
+  have key : ∀ u e, idToDb Fix.repaired u = some e → idFromDb e = u := by
     intro u e hu
-    by_cases hn : OidNewline u
-    · exfalso
-      unfold idToDb at hu
-      have ho : isOidText u = true := by
-        simp only [isOidText, Bool.or_eq_true, Bool.and_eq_true, beq_iff_eq]
-        exact Or.inr ⟨⟨hn.1, hn.2.1⟩, hn.2.2⟩
-      rw [if_pos ho, if_neg (by have := hn.1; omega)] at hu
-      cases hu
-    · obtain ⟨e', he', hb⟩ := idToDb_roundtrip u hn
-      rw [hu] at he'; injection he' with he'; rw [he']; exact hb
+    obtain ⟨e', he', hb⟩ := idToDb_roundtrip u
+    rw [hu] at he'; injection he' with he'; rw [he']; exact hb
   rw [← key s d hs, ← key t d ht]
 
 /-- a variant of `_id_to_db` whose ObjectId test accepts hex digits of either case (as `bson.ObjectId.is_valid`
